@@ -38,7 +38,7 @@ CLAIMS.update({
          'synchronous token free + deferred record free, one-shot ordering, TimerEventImpl enabled<=>registered, deadline base is a pure fresh clock reading, synchronous disable() before any deferred TimerEvent delete, every path of initialize()/destructor disables an enabled timer, repeat-count protocol replayed (r invocations then removal, 0 never; one-shot=1, persistent=0)', '§4 C02',
          'typestate dataflow (heap protocol) + CFG path rules + finite folding/replay of counter tests over clang AST/CFG'),
  'C06': ('write-arming invariant (running and queued => write event armed) decided at every state-changing site, remainder arithmetic shape of send(), '
-         'completion reported only where the queue is known empty (every reporting site, deferred closures included), receive-side commit/spill shape and commit-then-hand-over on every path, read/write result trichotomy and threshold/arming predicates by finite folding, destruction only through deferred tasks at the in-callback sites, the close report reached from the read side only (who-may-call over the whole call graph); plus the util::Buffer window arithmetic (C07 rules run as C06.B1-B4, the send/receive queues are Buffers)', '§4 C06, §10.6',
+         'completion reported only where the queue is known empty (every reporting site, deferred closures included), receive-side commit/spill shape and commit-then-hand-over on every path, read/write result trichotomy and threshold/arming predicates by finite folding, destruction only through deferred tasks at the in-callback sites, the close report reached from the read side only (who-may-call over the whole call graph), the wrappers relay and do not filter (TcpConnection forwards every stream operation to its BufferedFd with its own parameters and returns its answer; TcpServer wires each connection to handlers bound to its token and the handlers invoke the user\'s callbacks once; TcpClient remembers settings and replays them on every new connection; closes reported exactly once when a callback is set); plus the util::Buffer window arithmetic (C07 rules run as C06.B1-B4, the send/receive queues are Buffers)', '§4 C06, §10.6',
          'typestate-style site rules + ownership (deferred delete) rules over clang AST/CFG'),
  'C12': ('A8 no exception escapes the receive path (call-graph scan with try map, presence proofs by reaching definitions), fail verdicts only on a complete '
          'line and cursor-update shapes, no dispatch after a close-marked request, single commit per request by construction, in-order flush shape, boundary agreement of every comparison with close_index, no read-side shutdown while responses are owed (teardown chain re-derived each run), no unbounded stack allocation on the receive path, per-request parser state re-initialised at each request, any transport shutdown only in the send-complete callback, receive threshold of the resumable parser folds to 0 or 1, consume/flush pairing in the server (parsed bytes consumed, one send per advance, sent-then-erased on every path), no reset of a stage-filled member inside its re-enterable stage, reserve/resize with an input-derived count counted as a thrower', '§4 C12',
@@ -48,7 +48,7 @@ CLAIMS.update({
          'exception-escape analysis + ownership/deferred-capture + CFG path rules over clang AST/CFG'),
  'C14': ('A8 framing/dispatch never throw (parse only inside CatchThrow, typed json access under type tests), no narrow length sum, fetchNoCopy result proven '
          'non-null or tested, resumable-framing return discipline, complete-then-erase with sibling agreement, no container handle live across the user callback, '
-         'bounded recursion, FindEndPos scan guards, TimeoutMonitor count/timer protocol (count changes only with the ring, timer disabled only on a fresh zero test, nothing decided from a pre-callback value), no unbounded stack allocation, no narrow integer get<T>() without a range test (A9g for JSON), owner re-installs the monitor callback on re-initialisation, framing state reset on consuming/failing exits, encoder/decoder agreement on every refusal (reasons classified, length bounds folded from both guards), no scanner error value answered with "need more data", exact completeness boundaries of the header framing (linear proofs) and of the raw framing against the scanner\'s contract, request id counter only ever incremented', '§4 C14, §10.3 D33', 'exception-escape + input-hardening + re-entrancy rules over clang AST/CFG'),
+         'bounded recursion, FindEndPos scan guards, TimeoutMonitor count/timer protocol (count changes only with the ring, timer disabled only on a fresh zero test, nothing decided from a pre-callback value), no unbounded stack allocation, no narrow integer get<T>() without a range test (A9g for JSON), owner re-installs the monitor callback on re-initialisation, framing state reset on consuming/failing exits, encoder/decoder agreement on every refusal (reasons classified, length bounds folded from both guards), no scanner error value answered with "need more data", exact completeness boundaries of the header framing (linear proofs) and of the raw framing against the scanner\'s contract, request id counter only ever incremented, completion chain wired end to end (one id for store/watch/send; watcher installed, started and handlers registered on every successful initialize(); result/error/request relayed with the id, code and members read from the message; completion handlers look the callback up under their id and pass the relayed values resp. the time-out code)', '§4 C14, §10.3 D33', 'exception-escape + input-hardening + re-entrancy rules over clang AST/CFG'),
  'C15': ('every datagram-filled local initialised or status-checked, reported values control dependent on successful reads, bounded compression recursion, '
          'deserializer bounds-check/width/advance agreement over all readers, complete-then-erase of lookups, no exception on the datagram path, TimeoutMonitor count/timer protocol (both sides), no unbounded stack allocation, receive length bounded by the receive buffer, reported Result fresh per datagram, no deserializer status dropped on the datagram path, fresh request ids, registry completeness (request registers, deleteRequest erases), record/result discipline (payload read after the length field, every type branch consumes, byte order restored, non-success status on error paths), writes into fixed local arrays proven in bounds, RFC 1035 wire-format conformance of the parser\'s own expressions by finite-domain folding (reply bit, rcode, terminator, compression tag/target, exact trip counts), recursion bound at most 1024 levels', '§4 C15',
          'input-hardening (def/use + guard) rules + sibling agreement over clang AST/CFG'),
